@@ -25,3 +25,5 @@ for p in "$@"; do
   (cd /verif && ./check.sh $p quick 2>&1 | grep -E 'VIOLATION|UNDECIDED|^property' | cut -c1-260)
 done
 git -C /repo checkout -q -- .
+# evidence written while a seeded change was applied is not a record of the unchanged tree: restore the committed files
+git -C /verif checkout -q -- evidence 2>/dev/null
